@@ -1557,6 +1557,11 @@ func (e *Engine) execFunc(fn *ssa.Function, args []Val, bind []Val, st0 *State, 
 				continue
 			}
 			if ne.to.Dominates(b) { // back edge
+				if f.top && e.pure == 0 {
+					// pseudo-event: the loop goes on to its next iteration (effect clauses can forbid that after a call)
+					e.curState = st
+					e.record(Event{Guard: ne.g, Callee: "<loop-continues>", Pos: b.Instrs[len(b.Instrs)-1].Pos()})
+				}
 				if ic, ok := f.invs[ne.to]; ok {
 					e.oblige("inv-preserved", fmt.Sprintf("loop%d", loops[ne.to].ord), ne.g, ic(st), b.Instrs[len(b.Instrs)-1].Pos())
 				}
